@@ -7,3 +7,20 @@ add("C03",
     "Random search over robots (all sign/offset conventions, degenerate lengths, dof 5/6) and joint vectors (up to |q| = 2pi*1e3): forward() and all six link poses are compared with an independently written link-chain model; metamorphic link-locality, link-origin distances and unit-rotation clauses. Finds any formula slip that moves a pose by more than 1e-9 relative; gives no guarantee outside the generated inputs.",
     "Trusted: harness/src/model.rs (validated at every run against the 2048 recorded C++ cases), proptest generators, f64 arithmetic.",
     "DESIGN.md section 5, C03")
+
+PBT_M = "property-based testing (proptest, seeded, shrinking to a JSON replay) against the independent OPW link model"
+add("C01", PBT_M + " as forward oracle for every returned solution",
+    "Random search over all robot families, the four inverse entry points, reachable / singular / stretched / on-axis / unreachable / raw SE(3) / non-finite poses and all kinds of previous vectors: every returned joint vector is finite and its model forward pose equals the request (1 um, 1 urad; point+axis for the 5-DOF variants); plain inverse normalised; non-finite poses give []; no panic. Evidence of absence only within the generated cases.",
+    "Trusted: harness model (self-tested against 2048 recorded C++ cases each run); tolerances 1e-6+1e-9*(1+reach).", "DESIGN.md section 5, C01")
+add("C02", PBT_M + " (round trip q -> pose -> IK set) with closure relations",
+    "For joint vectors outside model-computed singularity margins: the generating configuration is among the answers mod 2pi (1e-6), and for answers inside the margins: no duplicates, wrist twin present, same set size from each answer's pose. All closed-form branches are exercised on every case.",
+    "Trusted: harness model; margins |sin q5|,|sin(q3+psi3)| > 0.01, rho^2-b^2 > 1e-4 define 'away from singularities'.", "DESIGN.md section 5, C02")
+add("C04", "property-based testing: validity predicate over the returned list (nearest representative, cost order, superset of plain inverse) plus model-based joint-space histories",
+    "Single calls over robots x poses x previous (incl. CONSTRAINT_CENTERED) x limits/weights x both continuation entry points; 20..200 step trajectories where each call's previous is the preceding first answer and must track the trajectory (no branch switch).",
+    "Trusted: documented cost formula re-implemented in the harness; oracle A for limits; first-answer clause only for weight 0.", "DESIGN.md section 5, C04")
+add("C05", "property-based testing + enumerated threshold grid against a geometric oracle (angle between J4 and J6 axes of the model link frames); metamorphic continuity check at exactly singular poses",
+    "Detection decided at every multiple of pi, both sides of the 0.01 degree band, arbitrary J5 offset/sign, through wrappers (1e-6 relative sliver excluded). Continuity: at q5=0 with a well-conditioned arm the first answer equals the previous joints and a recovered answer moves J4 and J6 equally.",
+    "Trusted: harness model; admission filter for continuity (sigma_min > 0.05 m/rad, shift sensitivity <= 0.4 urad, no second singular branch) is computed from the model only.", "DESIGN.md section 5, C05")
+add("C07", "exhaustive enumeration of the 5-degree (thorough: 2.5-degree) lattice against exact integer arc arithmetic, plus property-based testing on reals with a guard band and metamorphic turn-shifts",
+    "Every (from,to,angle) triple of the lattice in [-720,720]^3 through three constructors, boundaries included, is decided exactly; random reals in [-4pi,4pi] 1e-9 away from arc ends; whole turns added to the angle / both limits; centres accepted; filter == elementwise compliant; update_range == new.",
+    "Trusted: integer/real arc oracle (self-tested on README and repository tables). The lattice part is exhaustive for the lattice, not for the reals.", "DESIGN.md section 5, C07")
